@@ -6,8 +6,8 @@ cd "$(dirname "$0")"
 props="$@"
 [ -z "$props" ] && props="C01 C02 C03 C04 C05 C06 C07 C08 C09 C10 C11 C12 C13 C14 C16 C17 C18 C19"
 mkdir -p /tmp/regen
-echo $props | tr ' ' '\n' | xargs -P 1 -I{} sh -c 'if [ {} = C13 ]; then bin/govc ledger -prop {} -timeout 10 -maxsecs 7 > /tmp/regen/led_{}.txt 2>&1; else bin/govc ledger -prop {} -timeout 15 -maxsecs 10 > /tmp/regen/led_{}.txt 2>&1; fi; tail -1 /tmp/regen/led_{}.txt'
+echo $props | tr ' ' '\n' | xargs -P 1 -I{} sh -c 'if [ {} = C13 ]; then bin/govc ledger -prop {} -timeout 10 -maxsecs 7 > /tmp/regen/led_{}.txt 2>&1; else bin/govc ledger -prop {} -timeout 20 -maxsecs 15 > /tmp/regen/led_{}.txt 2>&1; fi; tail -1 /tmp/regen/led_{}.txt'
 for p in $props; do
   ./check $p --tier quick > /tmp/regen/chk_$p.txt 2>&1; rc=$?
-  echo "$p rc=$rc $(grep -c '^VIOLATION' /tmp/regen/chk_$p.txt) violations; $(tail -1 /tmp/regen/chk_$p.txt | cut -c1-160)"
+  echo "$p rc=$rc $(grep -c '^VIOLATION' /tmp/regen/chk_$p.txt) violations, $(grep -c 'CONTRACT-ERROR' /tmp/regen/chk_$p.txt) contract errors; $(tail -1 /tmp/regen/chk_$p.txt | cut -c1-160)"
 done
